@@ -176,10 +176,11 @@ fn make_base() -> Base {
         let access = matter.kv(kv.clone());
         let mut pubkeys = Vec::new();
         let (dkey, dnoc) = fresh_key_and_noc(&crypto, &roots[4].privkey, &roots[4].cert, 1);
+        let mut reached = true;
         matter.with_state(|state| {
             let mut last_dummy: Option<NonZeroU8> = None;
             let mut next = 1u8;
-            for (r, idx) in want.iter().enumerate() {
+            'outer: for (r, idx) in want.iter().enumerate() {
                 // dummies up to idx - 1
                 while next < *idx {
                     let d = state
@@ -187,7 +188,11 @@ fn make_base() -> Base {
                         .add(&crypto, dkey.reference(), &roots[4].cert, &dnoc, &[], Some(ipk().reference()), VENDOR, ADMIN)
                         .unwrap()
                         .fab_idx();
-                    assert_eq!(d.get(), next);
+                    if d.get() != next {
+                        // the index allocation is not max + 1: this initial state cannot be built
+                        reached = false;
+                        break 'outer;
+                    }
                     if let Some(p) = last_dummy {
                         state.fabrics.remove(p).unwrap();
                     }
@@ -199,7 +204,10 @@ fn make_base() -> Base {
                     .fabrics
                     .add(&crypto, sk.reference(), &roots[r].cert, &noc, &[], Some(ipk().reference()), VENDOR, ADMIN)
                     .unwrap();
-                assert_eq!(f.fab_idx().get(), *idx);
+                if f.fab_idx().get() != *idx {
+                    reached = false;
+                    break 'outer;
+                }
                 let mut p = FabricPersist::new(&access);
                 p.store(f).unwrap();
                 p.run().unwrap();
@@ -210,7 +218,9 @@ fn make_base() -> Base {
                 next = *idx + 1;
             }
         });
-        init.insert(kind, (kv.blobs(), pubkeys));
+        if reached {
+            init.insert(kind, (kv.blobs(), pubkeys));
+        }
     }
     let mut resume_ids = Vec::new();
     for node in [ADMIN, 9, 10] {
@@ -1394,7 +1404,10 @@ fn run_s(base: &Base, f: &[&str], wire: bool) -> String {
     let b = f[2].as_bytes();
     let init = Init { kind: b[0] - b'0', pase: b[1] == b'1' };
     let ops: Vec<Op> = f.get(3).map(|s| s.split(',').filter(|x| !x.is_empty()).map(parse_op).collect()).unwrap_or_default();
-    let (blobs0, keys) = base.init.get(&init.kind).cloned().unwrap_or_else(|| base.init[&2].clone());
+    let (blobs0, keys) = match base.init.get(&init.kind) {
+        Some(x) => x.clone(),
+        None => return "initial-state-unreachable".to_string(),
+    };
     let mut g = Ghost {
         inc_of_key: HashMap::new(),
         next_inc: 1,
